@@ -65,6 +65,17 @@ Print Assumptions C04_whole_run_recorded.
 (* observation level: the predicate Obs.c04_ok (nothing escapes, every other test whose stack can be set up still
    starts, everything is torn down, a summary is printed in every process in which a test started) holds of the
    model's observation of every run; a sequential case without correspondence difference therefore satisfies it *)
+(* "whose layers can be set up", read off the run itself: without -x a selected test is started once per --repeat iteration
+   (counted over all processes) — or some layer of its OWN stack has a setUp attempt that failed in some process of the run.
+   Nothing else (another layer's failure, any test outcome, any tearDown, resumption in subprocesses, -j) keeps it from running. *)
+From ZT Require Import RunCharged.
+Theorem C04_whole_run_started_or_charged : forall w o,
+  wf (lw w) -> o_x o = false -> (forall b, In b (tests w) -> t_layer b < nlayers (lw w)) ->
+  forall t b, nth_error (tests w) t = Some b ->
+  starts_of t (run w o) = reps o \/ 0 < failed_setups_in_stack w (t_layer b) (run w o).
+Proof. exact started_or_charged. Qed.
+Print Assumptions C04_whole_run_started_or_charged.
+
 From ZT Require Import Chk_World Obs ModelCase ObsC03.
 Theorem C04_predicate_holds_of_model : forall w o inj,
   wf (lw w) -> (forall t, In t (tests w) -> t_layer t < nlayers (lw w)) -> c04_ok (model_case w o inj) = true.
